@@ -41,10 +41,11 @@ import (
 // ---------------------------------------------------------------- case format
 
 type actorT struct {
-	K   string // Q request, F Freeze, W Warmup, R register, H WhereInt, N SetName, U URLFor
-	R   int    // route id (target of the request / object of the operation)
-	Val bool   // Q: the parameter value is an integer
-	RK  int    // R: 0 r.GET, 1 group.GET, 2 mount, 3 r.Version("v1").GET; 4 mount of a sub-router with static routes only; 5, 6 = 2, 4 with the sub-router warmed up before the mount; 100+p: a route BELOW route p (/r<p>/:id/d<R>), same registrar as p; 200+p: the SAME path as version route p, registered in version v2
+	K    string // Q request, F Freeze, W Warmup, R register, H WhereInt, N SetName, U URLFor
+	R    int    // route id (target of the request / object of the operation)
+	Val  bool   // Q: the parameter value is an integer
+	Gone bool   `json:",omitempty"` // Q: the request's context is already done when it is handed to ServeHTTP (case-line token G)
+	RK   int    // R: 0 r.GET, 1 group.GET, 2 mount, 3 r.Version("v1").GET; 4 mount of a sub-router with static routes only; 5, 6 = 2, 4 with the sub-router warmed up before the mount; 100+p: a route BELOW route p (/r<p>/:id/d<R>), same registrar as p; 200+p: the SAME path as version route p, registered in version v2
 }
 
 type caseT struct {
@@ -423,6 +424,15 @@ func (w *world) do(a actorT) (out string) {
 	}()
 	switch a.K {
 	case "Q":
+		if a.Gone {
+			// a client that went away / a deadline that expired in the accept queue: the request is handed to ServeHTTP all
+			// the same (and ends the configuration phase); what it is answered is not looked at
+			ctx, cancel := context.WithCancel(context.Background())
+			cancel()
+			req := httptest.NewRequest(http.MethodGet, w.reqPath(a.R, a.Val), nil).WithContext(ctx)
+			w.r.ServeHTTP(httptest.NewRecorder(), req)
+			return "G"
+		}
 		return "H " + w.get(a.R, a.Val, false)
 	case "F":
 		w.r.Freeze()
@@ -623,6 +633,10 @@ func runPhases(id string, k caseT, st *hx.Stats) string {
 
 	l := hx.NewLine(id).Tok("P").Nat(len(k.Actors))
 	for _, a := range k.Actors {
+		if a.K == "Q" && a.Gone {
+			l.Tok("G").Nat(a.R).Bool(a.Val)
+			continue
+		}
 		l.Tok(a.K)
 		switch a.K {
 		case "Q":
@@ -673,6 +687,9 @@ func runPhases(id string, k caseT, st *hx.Stats) string {
 		st.Count("actors_" + strconv.Itoa(len(k.Actors)))
 		for _, a := range k.Actors {
 			st.Count("kind_" + a.K)
+			if a.Gone {
+				st.Count("request_with_context_already_done")
+			}
 			if a.K == "R" {
 				if a.RK >= 200 {
 					st.Count("register_same_path_in_second_version")
@@ -720,6 +737,7 @@ var sawDeadlock bool
 
 func reg(r, rk int) actorT    { return actorT{K: "R", R: r, RK: rk} }
 func rq(r int, v bool) actorT { return actorT{K: "Q", R: r, Val: v} }
+func rqGone(r int) actorT     { return actorT{K: "Q", R: r, Val: true, Gone: true} }
 
 // fixedPhases: the K12 / K12b witnesses and the documented windows.
 func fixedPhases() []caseT {
@@ -765,11 +783,15 @@ func fixedPhases() []caseT {
 		{Actors: []actorT{reg(1, 3), reg(2, 201), rq(1, true), rq(2, true), rq(1, false)}, Plan: []int{0, 0, 1, 1, 2, 3, 4}, Comp: true},
 		{Actors: []actorT{reg(1, 3), reg(2, 201), reg(3, 0), {K: "H", R: 2}, rq(2, false), rq(1, false), rq(3, true)}, Plan: []int{0, 0, 1, 1, 2, 2, 3, 4, 5, 6}, Comp: true},
 		{Actors: []actorT{reg(2, 201), reg(1, 3), {K: "W"}, {K: "H", R: 1}, rq(2, false), rq(1, false)}, Plan: []int{0, 0, 1, 1, 2, 2, 2, 2, 3, 4, 5}},
+		// seeded C12-14 class: the FIRST request arrives with a context that is already done; it is a request all the same:
+		// afterwards registration (router, version router, mount), Where*, SetName are rejected and URLFor works
+		{Actors: []actorT{reg(1, 0), {K: "N", R: 1}, rqGone(1), reg(2, 0), reg(3, 3), reg(4, 2), {K: "H", R: 1}, {K: "U", R: 1}, rq(2, true), rq(1, false)}, Plan: []int{0, 0, 1, 2, 2, 2, 2, 2, 2, 2, 2, 2, 3, 3, 4, 4, 5, 5, 6, 7, 8, 9}},
+		{Actors: []actorT{reg(1, 3), {K: "W"}, rqGone(1), rqGone(9), {K: "N", R: 1}, reg(2, 1), rq(1, true)}, Plan: []int{0, 0, 1, 1, 1, 1, 2, 3, 2, 3, 2, 2, 2, 3, 3, 3, 3, 3, 4, 5, 5, 6}},
 	}
 }
 
-var oneShots = []actorT{reg(9, 0), reg(9, 1), reg(9, 2), reg(9, 3), reg(9, 6), {K: "H", R: 1}, {K: "N", R: 1}, {K: "U", R: 1}, {K: "F"}, {K: "W"}, rq(1, true), rq(1, false), rq(9, true), {K: "B", R: 1}, rq(5, false)}
-var drivers = []actorT{rq(1, true), {K: "F"}, {K: "W"}, rq(1, false)}
+var oneShots = []actorT{reg(9, 0), reg(9, 1), reg(9, 2), reg(9, 3), reg(9, 6), {K: "H", R: 1}, {K: "N", R: 1}, {K: "U", R: 1}, {K: "F"}, {K: "W"}, rq(1, true), rq(1, false), rq(9, true), {K: "B", R: 1}, rq(5, false), rqGone(1)}
+var drivers = []actorT{rq(1, true), {K: "F"}, {K: "W"}, rq(1, false), rqGone(2)}
 
 // familyOne: one driver goroutine advanced step by step, a one-shot operation inserted after k steps; a
 // registration (two steps: flag test, enqueue) is split by `gap` further driver steps.
@@ -844,7 +866,7 @@ func familyTwo(r *hx.Rand, n int, emit func(caseT)) {
 			d := hx.Pick(r, drivers)
 			if d.K == "Q" {
 				d.R = r.Range(1, 2)
-				d.Val = r.Chance(2, 3)
+				d.Val = r.Chance(2, 3) || d.Gone
 			}
 			acts = append(acts, d)
 		}
@@ -908,7 +930,11 @@ func familyRandom(r *hx.Rand, n int, emit func(caseT)) {
 			t := r.Range(1, nr)
 			switch r.Intn(9) {
 			case 0, 1, 2:
-				acts = append(acts, rq(t, r.Chance(2, 3)))
+				if r.Chance(1, 6) {
+					acts = append(acts, rqGone(t))
+				} else {
+					acts = append(acts, rq(t, r.Chance(2, 3)))
+				}
 			case 3:
 				acts = append(acts, actorT{K: "F"})
 			case 4:
@@ -1553,6 +1579,132 @@ func runRewarm(id string, seed uint64, trials int, st *hx.Stats) string {
 	return stressLine(id, trials, bad, stressRecipe{"rewarm", seed, trials}, st, "rewarm_batches")
 }
 
+// runURLConc (seeded change C12-15 class): after the freeze G goroutines build links to ONE named route at the same
+// time, each with its own parameter values (different lengths, characters that PathEscape rewrites). URLFor is a
+// function of (route, values): every call must return the URL the same call returned sequentially before — that URL
+// was fed back into ServeHTTP and bound every parameter to the value given. A differing URL is fed back too: the
+// message says which parameters the route then sees. Sound for every interleaving; detection power is a matter of
+// chance (shared scratch state inside the pattern is hit within a few hundred calls at GOMAXPROCS >= 2).
+func runURLConc(id string, seed uint64, trials int, st *hx.Stats) string {
+	r := hx.NewRand(seed)
+	var mu sync.Mutex
+	var bad []string
+	fail := func(f string, a ...any) { mu.Lock(); bad = append(bad, fmt.Sprintf(f, a...)); mu.Unlock() }
+	calls := 0
+	for t := 0; t < trials && len(bad) < 4; t++ {
+		rt := router.MustNew(router.WithRouteCompilation(r.Chance(1, 2)))
+		np := r.Range(1, 3)
+		pat := ""
+		var names []string
+		for i := 0; i < np; i++ {
+			if r.Chance(1, 2) {
+				pat += "/s" + strconv.Itoa(i)
+			}
+			names = append(names, "p"+strconv.Itoa(i))
+			pat += "/:p" + strconv.Itoa(i)
+		}
+		if r.Chance(1, 3) {
+			pat += "/tail"
+		}
+		type seenT struct{ vals map[string]string }
+		seenKey := struct{}{}
+		rt.GET(pat, func(c *router.Context) {
+			if sp, ok := c.Request.Context().Value(seenKey).(*seenT); ok {
+				for _, n := range names {
+					sp.vals[n] = c.Param(n)
+				}
+			}
+			_ = c.String(http.StatusOK, "ok")
+		}).SetName("link")
+		rt.GET("/other/:x", func(c *router.Context) { _ = c.String(http.StatusOK, "other") }).SetName("other")
+		if r.Chance(1, 2) {
+			rt.Freeze()
+		} else {
+			rt.ServeHTTP(httptest.NewRecorder(), httptest.NewRequest(http.MethodGet, "/other/1", nil))
+		}
+		back := func(u string) (int, map[string]string) {
+			sp := &seenT{vals: map[string]string{}}
+			pu, perr := url.ParseRequestURI(u)
+			if perr != nil {
+				return -1, nil // not even a request target
+			}
+			req := httptest.NewRequest(http.MethodGet, "/", nil)
+			req.URL = pu
+			req = req.WithContext(context.WithValue(req.Context(), seenKey, sp))
+			rec := httptest.NewRecorder()
+			rt.ServeHTTP(rec, req)
+			return rec.Code, sp.vals
+		}
+		G := min(max(runtime.GOMAXPROCS(0), 2), 8)
+		pool := []string{"7", "42", "alice", "bob-the-builder", "a b", "x%y", "ü", "0123456789012345678901234567890123456789", "Z", "q?r", "#1", "long-value-with-many-characters-to-grow-the-buffer"}
+		params := make([]map[string]string, G)
+		want := make([]string, G)
+		okSeq := true
+		for g := 0; g < G; g++ {
+			params[g] = map[string]string{}
+			for _, n := range names {
+				params[g][n] = hx.Pick(r, pool) + strconv.Itoa(g)
+			}
+			u, err := rt.URLFor("link", params[g], nil)
+			if err != nil {
+				fail("trial %d: sequential URLFor(link, %v) failed: %v", t, params[g], err)
+				okSeq = false
+				break
+			}
+			code, got := back(u)
+			if code != http.StatusOK || fmt.Sprint(got) != fmt.Sprint(params[g]) {
+				fail("trial %d: sequential URLFor(link, %v) = %q routes back with status %d and parameters %v", t, params[g], u, code, got)
+				okSeq = false
+				break
+			}
+			want[g] = u
+		}
+		if !okSeq {
+			continue
+		}
+		var wg sync.WaitGroup
+		start := make(chan struct{})
+		var stop atomic.Bool
+		var n atomic.Int64
+		for g := 0; g < G; g++ {
+			wg.Add(1)
+			go func(g int) {
+				defer wg.Done()
+				<-start
+				for i := 0; i < 2000 && !stop.Load(); i++ {
+					var u string
+					var err error
+					if p := recover2(func() { u, err = rt.URLFor("link", params[g], nil) }); p != nil {
+						fail("trial %d: concurrent URLFor(link, %v) panicked: %v", t, params[g], p)
+						stop.Store(true)
+						return
+					}
+					n.Add(1)
+					if err != nil || u != want[g] {
+						code, got := back(u)
+						fail("trial %d pattern %s: URLFor(link, %v) returned %q (err %v) while %d goroutines build links to the same route; sequentially it returns %q; fed back it answers %d with parameters %v", t, pat, params[g], u, err, G, want[g], code, got)
+						stop.Store(true)
+						return
+					}
+				}
+			}(g)
+		}
+		close(start)
+		wg.Wait()
+		calls += int(n.Load())
+	}
+	if st != nil {
+		st.Counters["urlconc_concurrent_urlfor_calls"] += calls
+	}
+	return stressLine(id, trials, bad, stressRecipe{"urlconc", seed, trials}, st, "urlconc_batches")
+}
+
+func recover2(f func()) (p any) {
+	defer func() { p = recover() }()
+	f()
+	return nil
+}
+
 // stressChild is the body of the child process: one kind, lines flushed one by one.
 func stressChild(kind string, seed uint64, n int, w *bufio.Writer) {
 	st := hx.NewStats()
@@ -1570,6 +1722,10 @@ func stressChild(kind string, seed uint64, n int, w *bufio.Writer) {
 	case "rewarm":
 		for b := 0; b*10 < n; b++ {
 			out(runRewarm(fmt.Sprintf("c12w-%d-%d", seed, b), seed*1000+uint64(b), min(10, n-b*10), st))
+		}
+	case "urlconc":
+		for b := 0; b*10 < n; b++ {
+			out(runURLConc(fmt.Sprintf("c12l-%d-%d", seed, b), seed*1000+uint64(b), min(10, n-b*10), st))
 		}
 	}
 	st.Emit(w)
@@ -1681,12 +1837,13 @@ func main() {
 		fmt.Fprintln(w, runApp("c12a-0", false, st))
 		fmt.Fprintln(w, runApp("c12a-1", true, st))
 		// unscheduled kinds, each in its own child process
-		nLate, nInflight, nRewarm := budget/10, 1500, 40
+		nLate, nInflight, nRewarm, nURLConc := budget/10, 1500, 40, 30
 		if a.Tier == "thorough" && budget >= 6000 { // not for the 3x-budget search runs of an alarming quick check
-			nLate, nInflight, nRewarm = budget/2, 6000, 200
+			nLate, nInflight, nRewarm, nURLConc = budget/2, 6000, 200, 200
 		}
 		if !sawDeadlock {
 			w.Flush()
+			spawnStress("urlconc", a.Seed, nURLConc, w, st)
 			spawnStress("rewarm", a.Seed, nRewarm, w, st)
 			spawnStress("inflight", a.Seed, nInflight, w, st)
 			spawnStress("late", a.Seed, nLate, w, st)
@@ -1711,6 +1868,8 @@ func main() {
 						switch rc.Stress.Kind {
 						case "inflight":
 							fmt.Fprintln(bw, runInflight(f[0], seed, rc.Stress.N, nil))
+						case "urlconc":
+							fmt.Fprintln(bw, runURLConc(f[0], seed, rc.Stress.N, nil))
 						case "rewarm":
 							var one strings.Builder
 							ob := bufio.NewWriter(&one)
